@@ -47,7 +47,7 @@ def schedules(total, tier, rng, bounds):
     for c in range(1, total):
         yield 'cut@%d' % c, {'cuts': (c,)}
     if tier == 'thorough':
-        step = 1 if total <= 260 else 3
+        step = 1 if total <= 200 else (2 if total <= 320 else 4)
         for a in range(1, total, step):
             for b in range(a + 1, total, step):
                 yield 'cuts@%d,%d' % (a, b), {'cuts': (a, b)}
@@ -65,52 +65,92 @@ def schedules(total, tier, rng, bounds):
         yield 'kcuts@%s' % (cs,), {'cuts': cs}
 
 
+class _Collector(object):
+    """Stands for a Verdict inside a worker process: collects report() calls."""
+
+    def __init__(self):
+        self.items = []
+
+    def report(self, key, what, replay=None):
+        self.items.append((key, what, {'recipe': (replay or {}).get('recipe')} if replay else None))
+
+
+def _work(args):
+    """One conversation under every schedule: play, compare with the baseline, validate with TLC.  Runs in a worker
+    process; returns (reports, stats, samples, stream length)."""
+    tier, sd, req, name = args
+    rng = random.Random('%s-%s-%s' % (sd, req, name))
+    corp = ulcorpus.REQUESTOR if req else ulcorpus.ACCEPTOR
+    sc = corp[name]
+    col = _Collector()
+    total = len(ulcorpus.peer_stream(sc))
+    base = None
+    runs, recipes, samples = [], [], []
+    n_diff = 0
+    tot = {'traces': 0, 'events': 0, 'states': 0, 'rejected': 0}
+
+    def flush():
+        if not runs:
+            return
+        st = ulcheck.validate(col, runs, recipes, chunk=3000)
+        for k in tot:
+            tot[k] += st[k]
+        del runs[:]
+        del recipes[:]
+    for waiting in ((False, True) if not req else (False,)):
+        for label, kw in schedules(total, tier, rng, ulcorpus.pdu_boundaries(sc)):
+            if tier == 'quick' and waiting and label.startswith('cut@') and '+' not in label and int(label[4:]) % 3:
+                continue
+            p = ulcorpus.play(sc, req, waiting=waiting, **kw)
+            obs = observable(p)
+            if base is None:
+                base = obs
+                if obs['outcome'] != 'ok':
+                    col.report({'site': 'dulprovider.run', 'clause': 'baseline', 'conv': name},
+                               'baseline run of %s/%s ends with %s' % ('req' if req else 'acc', name, obs['outcome']))
+            rec = {'req': req, 'conv': name, 'waiting': waiting, 'schedule': label,
+                   'kw': {k: list(x) if isinstance(x, tuple) else x for k, x in kw.items()}}
+            runs.append(p.run)
+            recipes.append(rec)
+            if obs != base:
+                n_diff += 1
+                what = []
+                for k in ('ind', 'wire', 'state', 'sock', 'outcome'):
+                    if obs[k] != base[k]:
+                        what.append('%s: %r instead of %r' % (k, obs[k], base[k]))
+                col.report({'site': 'dulprovider.run', 'clause': 'segmentation-dependence', 'conv': name,
+                            'diff': sorted(k for k in obs if obs[k] != base[k])[0]},
+                           '%s conversation %r under schedule %s (first segment waiting=%s) differs from one-PDU-per-segment: %s'
+                           % ('requestor' if req else 'acceptor', name, label, waiting, '; '.join(what)[:400]),
+                           replay={'recipe': rec})
+            if len(samples) < 1 and label.startswith('cuts@'):
+                samples.append({'recipe': rec, 'observed': {'ind': obs['ind'], 'wire': obs['wire'], 'state': obs['state']}})
+            if len(runs) >= 3000:
+                flush()
+    flush()
+    tot['diff'] = n_diff
+    return col.items, tot, samples, (('req-' if req else 'acc-') + name, total)
+
+
 def main(tier='quick'):
+    import multiprocessing
     v = Verdict('C03', tier)
-    rng = random.Random(seed())
     fr = tlc.run('Framing', 'Framing.cfg' if tier == 'quick' else 'Framing_thorough.cfg', workers=4)
     if not fr.ok:
         raise Machinery('Framing.tla fails TLC: %s %s' % (fr.violated, fr.errors[:2]))
-    runs, recipes, against = [], [], []
-    n_diff = 0
-    samples = []
-    per_conv = {}
-    for req, corp in ((False, ulcorpus.ACCEPTOR), (True, ulcorpus.REQUESTOR)):
-        for name, sc in sorted(corp.items()):
-            if tier == 'quick' and name in ('store', 'find', 'pipelined') and False:
-                continue
-            total = len(ulcorpus.peer_stream(sc))
-            base = None
-            for waiting in ((False, True) if not req else (False,)):
-                for label, kw in schedules(total, tier, rng, ulcorpus.pdu_boundaries(sc)):
-                    if tier == 'quick' and waiting and label.startswith('cut@') and '+' not in label and int(label[4:]) % 3:
-                        continue
-                    p = ulcorpus.play(sc, req, waiting=waiting, **kw)
-                    obs = observable(p)
-                    if base is None:
-                        base = obs
-                        if obs['outcome'] != 'ok':
-                            v.report({'site': 'dulprovider.run', 'clause': 'baseline', 'conv': name},
-                                     'baseline run of %s/%s ends with %s' % ('req' if req else 'acc', name, obs['outcome']))
-                    rec = {'req': req, 'conv': name, 'waiting': waiting, 'schedule': label, 'kw': {k: list(x) if isinstance(x, tuple) else x for k, x in kw.items()}}
-                    runs.append(p.run)
-                    recipes.append(rec)
-                    if obs != base:
-                        n_diff += 1
-                        what = []
-                        for k in ('ind', 'wire', 'state', 'sock', 'outcome'):
-                            if obs[k] != base[k]:
-                                what.append('%s: %r instead of %r' % (k, obs[k], base[k]))
-                        v.report({'site': 'dulprovider.run', 'clause': 'segmentation-dependence', 'conv': name,
-                                  'diff': sorted(k for k in obs if obs[k] != base[k])[0]},
-                                 '%s conversation %r under schedule %s (first segment waiting=%s) differs from one-PDU-per-segment: %s'
-                                 % ('requestor' if req else 'acceptor', name, label, waiting, '; '.join(what)[:400]),
-                                 replay={'recipe': rec})
-                    if len(samples) < 4 and label.startswith('cuts@'):
-                        samples.append({'recipe': rec, 'observed': {'ind': obs['ind'], 'wire': obs['wire'], 'state': obs['state']}})
-            per_conv[('req-' if req else 'acc-') + name] = total
-    stats = ulcheck.validate(v, runs, recipes, chunk=1500)
-    stats.pop('cells')
+    tasks = [(tier, seed(), req, name) for req, corp in ((False, ulcorpus.ACCEPTOR), (True, ulcorpus.REQUESTOR)) for name in sorted(corp)]
+    with multiprocessing.Pool(processes=min(14, len(tasks))) as pool:
+        results = pool.map(_work, tasks, chunksize=1)
+    samples, per_conv = [], {}
+    stats = {'traces': 0, 'events': 0, 'states': 0, 'rejected': 0, 'diff': 0}
+    for items, tot, smp, (cname, total) in results:
+        for key, what, rp in items:
+            v.report(key, what, replay=rp)
+        for k in stats:
+            stats[k] += tot[k]
+        samples.extend(smp)
+        per_conv[cname] = total
+    n_diff = stats['diff']
     ev = {
         'tier': tier, 'level': 'model_checking',
         'coverage': {
@@ -119,11 +159,11 @@ def main(tier='quick'):
             'trace_events_validated': stats['events'], 'trace_validation_states': stats['states'],
             'runs_differing_from_baseline': n_diff, 'rejected_traces': stats['rejected'],
             'peer_stream_bytes_per_conversation': per_conv,
-            'samples': samples,
+            'samples': samples[:4],
             'exhaustive': False,
             'explanation': 'Framing.tla: all delivery schedules of the modelled stream (exhaustive). Implementation: every '
-                           'single cut offset of every corpus conversation, dribble, %s pairs of cuts, seeded k-cuts, '
-                           'x first segment waiting' % ('all' if tier == 'thorough' else 'seeded and header-straddling'),
+                           'single cut offset of every corpus conversation, dribble, %s pairs of cuts, seeded k-cuts, the peer '
+                           'closing right behind its last write, x first segment waiting' % ('all' if tier == 'thorough' else 'seeded and header-straddling'),
         },
         'assumptions': ['the peer writes whole PDUs; segmentation is applied by the simulated network',
                         'recv returns everything that has arrived (up to the requested size)'],
